@@ -1,4 +1,5 @@
 import P9Model.Transport.Seg
+import P9Model.Transport.Vec
 import P9Model.Gen.Consts
 /-!
 # C17 — Stream segmentation independence on both receive paths
@@ -86,15 +87,23 @@ theorem eof_mid_frame_is_conn_error (msize : Nat) (lookup : Lookup) (s : Stream)
   rw [(recvSeg_eq_recv1 msize _ lookup s hwf).1, hb]
   exact recv1_truncated msize _ lookup hdr part hl hp tag d m
 
-/-- The vectorised path (`readFromBuffersLinux`: recvmsg into the iovecs, then consume what was
-filled) is modelled executably by `readVec` / `scatter`.  The full statement for it – stated
-here as a proposition, **not yet proved** (the `_partial` in this file's scope: the generic
-path is proved above, the vectorised one is validated by the K3 socketpair correspondence and
-by running `readVec` against `splitBy` in the driver): -/
-def VecPathSpec : Prop :=
-  ∀ (sizes : List Nat) (s : Stream), s.WF → sizes.sum ≤ s.bytes.length →
+/-- **The vectorised path (`readFromBuffersLinux`: recvmsg into the remaining iovecs, advance them
+by what arrived) through any segmentation**: with enough bytes in the stream it fills the vectors
+with the consecutive pieces of the stream and leaves the rest – whatever the sizes of the
+individual recvmsg completions. -/
+theorem vectorised_any_segmentation (sizes : List Nat) (s : Stream) (hwf : s.WF) (h : sizes.sum ≤ s.bytes.length) :
     ∃ s', readVec (sizes.sum + 1) (sizes.map fun n => (n, [])) s = some (splitBy sizes s.bytes, s') ∧
-      s'.bytes = s.bytes.drop sizes.sum
+      s'.bytes = s.bytes.drop sizes.sum :=
+  readVec_fresh sizes s hwf h
+
+/-- **Both read paths deliver the same vectors** (generic `io.Reader` loop and recvmsg loop), for
+any two segmentations of the same bytes. -/
+theorem read_paths_agree (sizes : List Nat) (s1 s2 : Stream) (h1 : s1.WF) (h2 : s2.WF)
+    (hb : s1.bytes = s2.bytes) (h : sizes.sum ≤ s1.bytes.length) :
+    (readFrom sizes s1).map (·.1) = (readVec (sizes.sum + 1) (sizes.map fun n => (n, [])) s2).map (·.1) := by
+  obtain ⟨s1', e1, _⟩ := (readFrom_spec sizes s1 h1).1 h
+  obtain ⟨s2', e2, _⟩ := readVec_fresh sizes s2 h2 (by rw [← hb]; exact h)
+  rw [e1, e2, hb]; rfl
 
 /-! ### non-vacuity -/
 def exStream : Stream := { chunks := [[11, 0], [0, 0, 8], [0, 0, 0x6f], [0xf3, 0xa1, 0x44]], eofAttached := true }
